@@ -3,26 +3,37 @@ C09 — "Executing an accepted query never panics. If the frontend accepts a que
 accepts the argument values, running it against an adapter that honours the adapter contract never
 panics; it either yields rows or ends."
 
-Full statement (FALSE on the pinned code):
+Full statement (FALSE on the engine):
 
   exec_no_panic : WFq ir → SchemaOK S ir → ArgsOK ir args → Conforms S D →
                   ∀ s, interpret (Env.ofData D args) ir ≠ .panic s
 
 `interpret` (Model/Interp.lean) has one `R.panic site` for every `expect / unwrap / index /
 unreachable! / assert!` of `execution.rs`, `filtering.rs` and the context bookkeeping of
-`interpreter/mod.rs` that the input can reach.  Four trigger classes reach one (each with a witness
+`interpreter/mod.rs` that the input can reach.  Two trigger classes reach one (each with a witness
 theorem on a small world that is also confirmed on the real engine, corpus/C09.cases):
   F-4  `regex` filter whose variable holds a pattern that does not compile   (`exec_panics_F4`)
-  F-5  ordering operator on list-typed operands (`is_orderable` admits lists)  (`exec_panics_F5`)
-  F-9  fold-count filter on a fold inside a missing @optional                 (`exec_panics_F9`)
-  F-10 the same tag used twice inside one fold → duplicate import             (`exec_panics_F10`)
+  F-5  ordering operator on list-typed operands (`is_orderable` accepts lists) (`exec_panics_F5`)
 
 `exec_no_panic_partial`: under the decidable guard `NoKnownTrigger D ir args` (no regex filter whose
-variable's argument does not compile; no ordering filter on a list-typed left operand; no
-post-filter on a fold whose from-vertex is optional; no duplicate key in any `imports`) no panic
+variable's argument does not compile; no ordering filter on a list-typed left operand) no panic
 site of the model is reachable — for the whole IR language of the model (optional, folds, nested
-folds, recursion with implicit coercion, imported tags).  `exec_panic_site`: without the guard, the
-only reachable sites are the four known ones.
+folds, folds with count filters inside missing optional scopes, recursion with implicit coercion,
+imported tags).  `exec_panic_site`: without the guard, the only reachable sites are the two known
+ones.
+
+HISTORY.  There used to be four trigger classes.  Two were fixed in the engine; their sites, guard
+clauses and witness theorems (`exec_panics_F9`, `exec_panics_F10`) are gone:
+  F-9  fold-count filter on a fold inside a missing @optional: `apply_fold_specific_filter` hit
+       `unreachable!`; it now pushes `Null` and runs the ordinary filter stage (a context without
+       active vertex passes).  The site no longer exists; that the new branch is safe is part of the
+       invariant proof (`applyPostFilter_safe`: slot `None` ⇒ no active vertex).
+  F-10 the same tag used twice inside one fold → duplicate entry in the fold's `imported_tags` → the
+       second `imported_tags.remove(..).unwrap()` failed.  The frontend now de-duplicates, so "no tag
+       imported twice by one fold" is a clause of the structural well-formedness `WFq`
+       (`tagKeysDistinct` in `stageWf`), and under `WFq` the `remove(..).unwrap()` site is unreachable.
+The two old witness worlds are kept as regressions (`Witness.F9`, `Witness.F10`, examples at the end):
+they now satisfy all five hypotheses and run to rows.
 -/
 import TrustfallModel.Proofs.InterpInvMain
 import TrustfallModel.Proofs.InterpInvWitness
@@ -53,7 +64,8 @@ theorem exec_rows_or_fuel (S : SchemaView) (D : Data) (ir : IRQuery) (args : Lis
   | fuel => exact Or.inr rfl
   | panic s => exact absurd h (exec_no_panic_partial S D ir args hwf hso hargs hconf hnt s)
 
-/-- Without the guard: the only panic sites an accepted query can reach are the four known ones,
+/-- Without the guard: the only panic sites an accepted query can reach are the two known ones
+(`knownSite`: "regex argument was not a valid regex" — F-4, "filter operator: unreachable!" — F-5),
 and then a known trigger is present. -/
 theorem exec_panic_site (S : SchemaView) (D : Data) (ir : IRQuery) (args : List (Name × Value))
     (hwf : WFq ir = true) (hso : SchemaOK S ir = true) (hargs : ArgsOK ir args = true)
@@ -64,7 +76,7 @@ theorem exec_panic_site (S : SchemaView) (D : Data) (ir : IRQuery) (args : List 
   rw [h] at hs
   exact ⟨hs.1, by simpa using hs.2⟩
 
-/-! ### the full statement is false: one witness per trigger class -/
+/-! ### the full statement is false: one witness per (remaining) trigger class -/
 
 theorem exec_panics_F4 : ∃ S D ir args, WFq ir = true ∧ SchemaOK S ir = true ∧
     ArgsOK ir args = true ∧ Conforms S D = true ∧
@@ -78,19 +90,6 @@ theorem exec_panics_F5 : ∃ S D ir args, WFq ir = true ∧ SchemaOK S ir = true
   ⟨_, _, _, _, Witness.F5.hyps.1, Witness.F5.hyps.2.1, Witness.F5.hyps.2.2.1,
     Witness.F5.hyps.2.2.2, Witness.F5.panics⟩
 
-theorem exec_panics_F9 : ∃ S D ir args, WFq ir = true ∧ SchemaOK S ir = true ∧
-    ArgsOK ir args = true ∧ Conforms S D = true ∧
-    interpret (Env.ofData D args) ir = .panic
-      "while applying fold-specific filter, the @fold turned out to not exist: unreachable!" :=
-  ⟨_, _, _, _, Witness.F9.hyps.1, Witness.F9.hyps.2.1, Witness.F9.hyps.2.2.1,
-    Witness.F9.hyps.2.2.2, Witness.F9.panics⟩
-
-theorem exec_panics_F10 : ∃ S D ir args, WFq ir = true ∧ SchemaOK S ir = true ∧
-    ArgsOK ir args = true ∧ Conforms S D = true ∧
-    interpret (Env.ofData D args) ir = .panic "imported_tags.remove(..).unwrap()" :=
-  ⟨_, _, _, _, Witness.F10.hyps.1, Witness.F10.hyps.2.1, Witness.F10.hyps.2.2.1,
-    Witness.F10.hyps.2.2.2, Witness.F10.panics⟩
-
 theorem exec_no_panic_full_false :
     ¬ (∀ (S : SchemaView) (D : Data) (ir : IRQuery) (args : List (Name × Value)),
         WFq ir = true → SchemaOK S ir = true → ArgsOK ir args = true → Conforms S D = true →
@@ -99,13 +98,44 @@ theorem exec_no_panic_full_false :
   obtain ⟨S, D, ir, args, h1, h2, h3, h4, hp⟩ := exec_panics_F4
   exact h S D ir args h1 h2 h3 h4 _ hp
 
-/-- the guard is necessary in each of its four clauses -/
+/-- the guard is necessary in each of its two clauses -/
 example : NoKnownTrigger Witness.F4.D Witness.F4.ir Witness.F4.args = false := Witness.F4.trigger
 example : NoKnownTrigger Witness.F5.D Witness.F5.ir Witness.F5.args = false := Witness.F5.trigger
-example : NoKnownTrigger Witness.F9.D Witness.F9.ir Witness.F9.args = false := Witness.F9.trigger
-example : NoKnownTrigger Witness.F10.D Witness.F10.ir Witness.F10.args = false := Witness.F10.trigger
 
-/-- non-vacuity of the partial theorem: all five hypotheses hold on a world with a recursion -/
+/-- the two sites are exactly these -/
+example : knownSite "regex argument was not a valid regex" = true ∧
+    knownSite "filter operator: unreachable!" = true ∧
+    knownSite "while applying fold-specific filter, the @fold turned out to not exist: unreachable!"
+      = false ∧
+    knownSite "imported_tags.remove(..).unwrap()" = false := by decide +kernel
+
+/-! ### regressions of the two fixed defects (non-vacuity: all five hypotheses hold, rows come out) -/
+
+/-- F-9: the world that used to hit `unreachable!` (count filter on a fold below a missing
+`@optional` vertex) satisfies every hypothesis — the guard no longer excludes it — and yields its
+row. -/
+example : WFq Witness.F9.ir = true ∧ SchemaOK Witness.F9.S Witness.F9.ir = true ∧
+    ArgsOK Witness.F9.ir Witness.F9.args = true ∧ Conforms Witness.F9.S Witness.F9.D = true ∧
+    NoKnownTrigger Witness.F9.D Witness.F9.ir Witness.F9.args = true := Witness.F9.hyps
+example : interpret (Env.ofData Witness.F9.D Witness.F9.args) Witness.F9.ir =
+    .ok [[("o0", .string [0x61])]] := Witness.F9.runs
+
+/-- F-10: the IR with the duplicated import (what the unfixed frontend produced) is not well-formed
+any more; the IR the fixed frontend produces for the same query (import listed once) satisfies every
+hypothesis and yields its row. -/
+example : WFq Witness.F10.ir = false := Witness.F10.old_ir_not_wf
+example : WFq Witness.F10.irFixed = true ∧ SchemaOK Witness.F10.S Witness.F10.irFixed = true ∧
+    ArgsOK Witness.F10.irFixed Witness.F10.args = true ∧
+    Conforms Witness.F10.S Witness.F10.D = true ∧
+    NoKnownTrigger Witness.F10.D Witness.F10.irFixed Witness.F10.args = true := Witness.F10.hyps
+example : interpret (Env.ofData Witness.F10.D Witness.F10.args) Witness.F10.irFixed =
+    .ok [[("o0", .string [0x61])]] := Witness.F10.runs
+/-- the `WFq` clause is one the engine relies on: on the (now impossible) IR with the duplicate the
+unchanged interpreter would still fail in `imported_tags.remove(..).unwrap()` -/
+example : interpret (Env.ofData Witness.F10.D Witness.F10.args) Witness.F10.ir =
+    .panic "imported_tags.remove(..).unwrap()" := Witness.F10.dup_still_panics
+
+/-- non-vacuity of the partial theorem on a world with a recursion -/
 example : WFq Witness.C21a.ir = true ∧ ArgsOK Witness.C21a.ir Witness.C21a.args = true ∧
     Conforms Witness.C21a.S Witness.C21a.D = true ∧
     NoKnownTrigger Witness.C21a.D Witness.C21a.ir Witness.C21a.args = true := Witness.C21a.hyps
@@ -117,6 +147,4 @@ end TF.C09
 #print axioms TF.C09.exec_panic_site
 #print axioms TF.C09.exec_panics_F4
 #print axioms TF.C09.exec_panics_F5
-#print axioms TF.C09.exec_panics_F9
-#print axioms TF.C09.exec_panics_F10
 #print axioms TF.C09.exec_no_panic_full_false
